@@ -418,7 +418,7 @@ func (p *parser) parsePostfix(x Expr) Expr {
 var itemKW = map[string]bool{"spec": true, "pred": true, "func": true, "extern": true, "trusted": true, "lemma": true,
 	"invariant": true, "monitor": true, "directive": true, "axiom": true}
 var clauseKW = map[string]bool{"requires": true, "ensures": true, "assigns": true, "decreases": true, "loop": true,
-	"behavior": true, "assumes": true, "ghost": true, "pure": true, "mayalloc": true, "prop": true}
+	"behavior": true, "assumes": true, "ghost": true, "pure": true, "mayalloc": true, "prop": true, "cases": true}
 
 type logical struct {
 	text string
@@ -639,6 +639,19 @@ func ParseFile(name, src string) (f *File, err error) {
 			cur.Pure = true
 		case "mayalloc":
 			cur.Mayalloc = true
+		case "cases":
+			if cur == nil {
+				p.fail("cases outside of a function contract")
+			}
+			for {
+				c := &Clause{Pos: l.pos, Text: l.text}
+				c.E = p.parseExpr()
+				cur.Cases = append(cur.Cases, c)
+				if !p.accept(",") {
+					break
+				}
+			}
+			p.eof()
 		case "prop":
 			for p.peek().kind != "eof" {
 				cur.Props = append(cur.Props, p.next().text)
